@@ -540,14 +540,22 @@ class Gen:
                                ast.unparse(fr[0])))
             # after the FOUND return: `if attempts <= 0: break`,
             # `current_offset = ...`, `if <stop>: return REACHED_EOF 0`
-            upd = [st for st in rest if isinstance(st, ast.Assign)
-                   and ast.unparse(st.targets[0]) == 'current_offset']
+            upd = [st for st in rest
+                   if (isinstance(st, ast.Assign)
+                       and ast.unparse(st.targets[0]) == 'current_offset')
+                   or (isinstance(st, ast.AugAssign)
+                       and ast.unparse(st.target) == 'current_offset')]
             if len(upd) != 1:
                 raise Untranslatable("find_token_reverse: one update of "
                                      "current_offset expected")
             tr3 = Tr(names={'current_offset': 'cur'},
                      subst={'len(chunk)': ('n', 'Z', ['n'])})
-            t3, _ = tr3.expr(upd[0].value)
+            # `current_offset -= e` is `current_offset = current_offset - e`
+            upd_value = upd[0].value if isinstance(upd[0], ast.Assign) else \
+                ast.fix_missing_locations(ast.copy_location(ast.BinOp(
+                    left=ast.Name(id='current_offset', ctx=ast.Load()),
+                    op=upd[0].op, right=upd[0].value), upd[0]))
+            t3, _ = tr3.expr(upd_value)
             self.exprs.append(('ftr_next_cur', ['cur', 'n'], 'Z', t3, 'Z',
                                ast.unparse(upd[0])))
             after = rest[rest.index(upd[0]) + 1:]
